@@ -52,8 +52,8 @@ let () =
   reg "keyv" (fun c -> function [key; g1; m1; ch; g2; m2; out] ->
       (vd (keyi_verify c.g (z key) (b1 g1) (z m1) (z ch) (b1 g2) (z m2)), out) | _ -> failwith "arity");
   register "mval" (function [q; raws; out] ->
-      ((match masking_value { gp = Z0; gq = z q; gg = Z0 } (List.map z (split ',' raws)) with None -> "none" | Some r -> hz r), out) | _ -> failwith "arity");
-  reg "mask" (fun c -> function [m; r; out] -> (opt2 (mask c.g c.h c.th (z m) (z r)), out) | _ -> failwith "arity");
+      ((match vtmf_masking_value { gp = Z0; gq = z q; gg = Z0 } (List.map z (split ',' raws)) with None -> "none" | Some r -> hz r), out) | _ -> failwith "arity");
+  reg "mask" (fun c -> function [m; r; out] -> (opt2 (vtmf_mask c.g c.h c.th (z m) (z r)), out) | _ -> failwith "arity");
   reg "mkp" (fun c -> function [m; c1; c2; r; raw; tbl; out] ->
       (opt2 (mask_prove (oracle tbl) c.g c.h c.th (z m) (z c1) (z c2) (z r) (z raw)), out) | _ -> failwith "arity");
   reg "mkv" (fun c -> function [m; c1; c2; good; cc; s; tbl; out] ->
@@ -81,4 +81,43 @@ let () =
       ((match commit_by c (z r) (List.map z (split ',' ms)) (b1 prot) with None -> "none" | Some cc -> hz cc), out) | _ -> failwith "arity");
   register "pcv" (fun toks -> match pc toks with (c, [cc; r; ms; out]) ->
       (vd (pverify c (z cc) (z r) (List.map z (split ',' ms))), out) | _ -> failwith "arity");
+  (* cut-and-choose: stacks c1,c2;c1,c2  secrets idx,r;idx,r  commitment table stack=hash *)
+  let stack_of t = List.map (fun e -> match String.split_on_char ',' e with [a; b] -> (z a, z b) | _ -> failwith "card") (split ';' t) in
+  let sec_of t = List.map (fun e -> match String.split_on_char ',' e with [a; b] -> (n_of_hex a, z b) | _ -> failwith "secret") (split ';' t) in
+  let tok_sec l = if l = [] then "_" else String.concat ";" (List.map (fun (a, r) -> hex_of_n a ^ "," ^ hz r) l) in
+  let hc_of t = if t = "_" then (fun _ -> missed := true; Zneg XH) else
+      (match String.split_on_char '=' t with
+       | [st; v] -> let st = stack_of st in (fun x -> if x = st then z v else (missed := true; Zneg XH))
+       | _ -> failwith "commitment table") in
+  let res_tok f = function Ret a -> f a | NeedCoins -> "needcoins" | Oob -> "oob" | AssertFail -> "assert" | DivZero -> "divzero" | _ -> "throw" in
+  register "ccp" (function [p; q; g; h; cyc; s2; sigma; coins; bit; tbl; out] ->
+      missed := false;
+      let grp = { gp = z p; gq = z q; gg = z g } in
+      let s2 = stack_of s2 in
+      flag (res_tok (fun ((_, ss2), rest) ->
+          if rest <> [] then "model-left-coins" else
+          res_tok (fun (com, resp) -> hz com ^ "/" ^ tok_sec (secZ resp))
+            (prove_round (hc_of tbl) grp (z h) s2 (secN (sec_of sigma)) (secN ss2) (b1 bit)))
+        (create_stack_secret (b1 cyc) (nat_of_int (List.length s2)) (z q) (bytes_of_tok coins)), out)
+    | _ -> failwith "arity");
+  register "ccv" (function [p; q; g; h; s; s2; cyc; bit; com; resp; tbl; out] ->
+      missed := false;
+      let grp = { gp = z p; gq = z q; gg = z g } in
+      flag (res_tok (fun b -> if b then "1" else "0")
+        (verify_round (hc_of tbl) grp (z h) (stack_of s) (stack_of s2) (b1 cyc) (b1 bit) (z com) (sec_of resp)), out)
+    | _ -> failwith "arity");
+  (* shuffle of known content: argument  c_d/c_Delta/c_a/f,..,f/z/fD,..,fD/zD *)
+  let msg_tok t = String.concat "/" [hz t.k_cd; hz t.k_cDelta; hz t.k_ca; cat (List.map hz t.k_f); hz t.k_z;
+                                     (if t.k_fD = [] then "_" else cat (List.map hz t.k_fD)); hz t.k_zD] in
+  let msg_of s = match String.split_on_char '/' s with
+    | [a; b; c; f; zz; fd; zd] -> { k_cd = z a; k_cDelta = z b; k_ca = z c; k_f = List.map z (split ',' f); k_z = z zz;
+                                    k_fD = List.map z (split ',' fd); k_zD = z zd }
+    | _ -> failwith "skc message" in
+  register "skp" (fun toks -> missed := false; match pc toks with (c, [l; pi; r; m; raws; tbl; out]) ->
+      flag ((match skc_prove (oracle tbl) c (z l) (List.map (fun s -> nat_of_int (int_of_string s)) (split ',' pi)) (z r)
+                     (List.map z (split ',' m)) (List.map z (split ',' raws)) with None -> "none" | Some t -> msg_tok t), out)
+    | _ -> failwith "arity");
+  register "skv" (fun toks -> missed := false; match pc toks with (c, [l; cc; m; good; msg; opt; alpha; tbl; out]) ->
+      flag (vd (skc_verify (oracle tbl) c (z l) (z cc) (List.map z (split ',' m)) (b1 good) (msg_of msg) (b1 opt) (z alpha)), out)
+    | _ -> failwith "arity");
   main ()
